@@ -318,21 +318,32 @@ class FnProxy:
         bb = (1 - b) if self._neg else b
         return CTX.obs_eq(CTX.net.const_on(self._v, bb, self._restr), r, "Bdd.is_const", self._v)
 
+    _posmap = {}
+
     def __call__(self, valuation):
         r = self._real(valuation)
         if CTX.opaque > 0 or not CTX.active:
             return r
         net = CTX.net
         base = self._restr
-        x = list(0 if s is None else s for s in base)
-        ctx = self._real.__ctx__()
+        # (hot path of the simulation minification: millions of calls, few distinct bits)
+        pos = self.__dict__.get("_pos")
+        if pos is None:
+            pos = self.__dict__["_pos"] = {}
+        x = [0 if s is None else s for s in base]
         for var, val in valuation.items():
-            nm = ctx.get_variable_name(var)
-            x[net.names.index(nm)] = int(val)
+            i = pos.get(var)
+            if i is None:
+                i = pos[var] = net.names.index(self._real.__ctx__().get_variable_name(var))
+            x[i] = 1 if val else 0
         x = tuple(x)
+        key = ("call", self._v, self._neg, x, bool(r))
+        if key in CTX.seen:
+            return r
+        CTX.seen.add(key)
         f = net.fval(self._v, x)
         if self._neg:
-            f = z3.Not(f)
+            f = fNot(f)
         return CTX.obs_eq(f, r, "Bdd.__call__", (self._v, x))
 
     def __getattr__(self, name):
@@ -355,9 +366,19 @@ class GraphProxy(Proxy):
         return FnProxy(r, object.__getattribute__(self, "_nctx"), CTX.net.names.index(name))
 
 
+def _untracked(o):
+    """a real library object / untagged Petri net: we are inside a region (or a caller bypassed the audited
+    path with real objects, which carry no symbolic information): pass through"""
+    if isinstance(o, Proxy):
+        return False
+    if isinstance(o, nx.DiGraph):
+        return o.graph.get("verif_nctx") is None and o.number_of_nodes() > 0
+    return True
+
+
 def w_AsynchronousGraph(network, *a, **k):
     real = REAL["AsynchronousGraph"](unwrap(network), *a, **k)
-    if not CTX.active or CTX.opaque > 0:
+    if not CTX.active or CTX.opaque > 0 or _untracked(network):
         return real
     return GraphProxy(real, nctx_of(network))
 
@@ -435,14 +456,14 @@ class BNFacade(metaclass=BNFacadeMeta):
 # ----------------------------------------------------------------------------- region oracles
 def w_cleanup_network(network):
     r = REAL["cleanup_network"](unwrap(network))
-    if not CTX.active or CTX.opaque > 0:
+    if not CTX.active or CTX.opaque > 0 or _untracked(network):
         return r
     return NetProxy(r, nctx_of(network))
 
 
 def w_network_to_petrinet(network, symbolic_context=None):
     pn = REAL["network_to_petrinet"](unwrap(network), symbolic_context)
-    if CTX.active and CTX.opaque == 0:
+    if CTX.active and CTX.opaque == 0 and not _untracked(network):
         nctx = nctx_of(network)
         pn.graph["verif_nctx"] = (tuple(nctx[0]), None if nctx[1] is None else tuple(sorted(nctx[1])))
     return pn
@@ -450,7 +471,7 @@ def w_network_to_petrinet(network, symbolic_context=None):
 
 def w_restrict_petrinet(petri_net, sub_space):
     r = REAL["restrict_petrinet_to_subspace"](petri_net, sub_space)
-    if CTX.active and CTX.opaque == 0:
+    if CTX.active and CTX.opaque == 0 and not _untracked(petri_net) and petri_net.number_of_nodes() > 0:
         nctx = nctx_of(petri_net)
         nv = netvars(nctx)
         base = list(nctx[0])
@@ -464,7 +485,7 @@ def w_restrict_petrinet(petri_net, sub_space):
 
 def w_extract_source_variables(pn):
     r = REAL["extract_source_variables"](pn)
-    if CTX.active and CTX.opaque == 0:
+    if CTX.active and CTX.opaque == 0 and not _untracked(pn) and pn.number_of_nodes() > 0:
         nctx = nctx_of(pn)
         net = CTX.net
         for v in netvars(nctx):
@@ -474,7 +495,7 @@ def w_extract_source_variables(pn):
 
 def w_source_nodes(network, ctx=None):
     r = REAL["source_nodes"](unwrap(network), ctx)
-    if CTX.active and CTX.opaque == 0:
+    if CTX.active and CTX.opaque == 0 and not _untracked(network):
         nctx = nctx_of(network)
         net = CTX.net
         for v in netvars(nctx):
@@ -483,7 +504,7 @@ def w_source_nodes(network, ctx=None):
 
 
 def w_source_SCCs(bn):
-    if CTX.active and CTX.opaque == 0:
+    if CTX.active and CTX.opaque == 0 and not _untracked(bn):
         concretise_reg(nctx_of(bn))
     return REAL["source_SCCs"](unwrap(bn))
 
@@ -492,8 +513,6 @@ def w_feedback_vertex_set(network, parity=None, subgraph=None):
     if CTX.active and CTX.opaque == 0:
         if isinstance(network, Proxy):
             concretise_reg(nctx_of(network))
-        else:
-            raise Unmodelled("feedback_vertex_set on a non-network argument")
     return REAL["feedback_vertex_set"](unwrap(network), parity, subgraph)
 
 
@@ -501,7 +520,7 @@ def w_percolate_space(network, space):
     if CTX.opaque == 0:
         fault_point("percolate_space")
     r = REAL["percolate_space"](unwrap(network), space)
-    if CTX.active and CTX.opaque == 0:
+    if CTX.active and CTX.opaque == 0 and not _untracked(network):
         nctx = nctx_of(network)
         net = CTX.net
         base, V = nctx
@@ -543,7 +562,7 @@ def _perc_rel(S, R, nctx):
 
 def w_percolate_network(bn, space, symbolic_network=None, remove_constants=False):
     r = REAL["percolate_network"](unwrap(bn), space, unwrap(symbolic_network), remove_constants)
-    if not CTX.active or CTX.opaque > 0:
+    if not CTX.active or CTX.opaque > 0 or _untracked(bn):
         return r
     nctx = nctx_of(bn)
     net = CTX.net
@@ -600,7 +619,7 @@ def w_trappist(network, problem="min", reverse_time=False, solution_limit=None, 
                avoid_subspaces=None, optimize_source_variables=None):
     if CTX.opaque == 0:
         fault_point("trappist")
-    if not CTX.active or CTX.opaque > 0:
+    if not CTX.active or CTX.opaque > 0 or _untracked(network):
         return REAL["trappist"](unwrap(network), problem=problem, reverse_time=reverse_time, solution_limit=solution_limit,
                                 ensure_subspace=ensure_subspace, avoid_subspaces=avoid_subspaces,
                                 optimize_source_variables=optimize_source_variables)
@@ -688,7 +707,7 @@ def _truncate(res, lim, real_len, region):
 def w_rfp(petri_net, retained_set={}, ensure_subspace={}, avoid_subspaces=[], solution_limit=None):
     if CTX.opaque == 0:
         fault_point("compute_fixed_point_reduced_STG")
-    if not CTX.active or CTX.opaque > 0:
+    if not CTX.active or CTX.opaque > 0 or _untracked(petri_net):
         return REAL["compute_fixed_point_reduced_STG"](petri_net, retained_set, ensure_subspace=ensure_subspace,
                                                        avoid_subspaces=avoid_subspaces, solution_limit=solution_limit)
     if petri_net.number_of_nodes() == 0:
@@ -911,12 +930,4 @@ def install():
     patch_all(SDM.symbolic_attractor_fallback, w_symbolic_attractor_fallback, "symbolic_attractor_fallback")
     patch_all(ba.AsynchronousGraph, w_AsynchronousGraph, "AsynchronousGraph")
     patch_all(ba.BooleanNetwork, BNFacade, "BooleanNetwork")
-    # functions of trappist_core / space_utils call each other through module globals: keep the *internal*
-    # references real (the regions are opaque), only the importers see the oracles.
-    for mod, names in ((TC, ("network_to_petrinet", "extract_source_variables", "BooleanNetwork")),
-                       (SU, ("percolate_space", "AsynchronousGraph", "BooleanNetwork")),
-                       (PNT, ()), (IGU, ("BooleanNetwork",)), (SYU, ())):
-        for nm in names:
-            key = {"BooleanNetwork": "BooleanNetwork", "AsynchronousGraph": "AsynchronousGraph"}.get(nm, nm)
-            if key in REAL and hasattr(mod, nm):
-                setattr(mod, nm, REAL[key])
+    # (every oracle passes real / untracked arguments through, so the regions' internal calls stay real)
